@@ -28,7 +28,17 @@ func main() {
 	verif := flag.String("verif", "/verif", "verification directory (evidence, known findings, replay)")
 	list := flag.Bool("list", false, "list registered properties")
 	noEvidence := flag.Bool("scratch", false, "scratch mode: analyse -repo but write evidence/replay under a temp dir (used by the mutation harness)")
+	dbg := flag.String("debug", "", "developer aid: dump an event graph")
 	flag.Parse()
+	if *dbg != "" {
+		p, err := Load(*repo)
+		if err != nil {
+			fmt.Println(err)
+			os.Exit(2)
+		}
+		debugDump(p, *dbg)
+		return
+	}
 	if *list {
 		var ids []string
 		for id := range registry {
